@@ -958,11 +958,59 @@ impl<'a> VisitMut for WorldPass<'a> {
     }
 }
 
+// ------------------------------------------------------------------ R-FOR
+
+/// rule R-FOR: the language-defined desugaring of `for PAT in E { B }` (needed where Verus' own for-loop encoding
+/// rejects `continue` / `break`): `{ let mut it = IntoIterator::into_iter(E); loop { let PAT = match it.next() { Some(x) => x, None => break }; B } }`
+struct ForDesugar<'a> {
+    n: usize,
+    which: &'a [usize],
+    log: &'a mut Vec<String>,
+}
+impl<'a> VisitMut for ForDesugar<'a> {
+    fn visit_expr_mut(&mut self, e: &mut Expr) {
+        let idx = self.n;
+        let is_loop = matches!(e, Expr::ForLoop(_) | Expr::While(_) | Expr::Loop(_));
+        if is_loop {
+            self.n += 1;
+        }
+        if let Expr::ForLoop(f) = e {
+            if self.which.contains(&idx) {
+                let it = quote::format_ident!("__fjx_it{}", idx);
+                let pat = &f.pat;
+                let ex = &f.expr;
+                let mut body = f.body.clone();
+                // children first (nested loops keep their pre-order numbers)
+                visit_mut::visit_block_mut(self, &mut body);
+                let stmts = &body.stmts;
+                let id = syn::Index::from(idx);
+                let new: Expr = parse_quote! {
+                    {
+                        let mut #it = IntoIterator::into_iter(#ex);
+                        __fjx_ghost_decl!(#id);
+                        loop {
+                            let #pat = match #it.next() { Some(__fjx_x) => __fjx_x, None => break, };
+                            __fjx_ghost_inc!(#id);
+                            __fjx_loopstart!(#id);
+                            #(#stmts)*
+                        }
+                    }
+                };
+                *e = new;
+                self.log.push(format!("R-FOR for-loop #{idx} desugared to loop/next()/break (language definition)"));
+                return;
+            }
+        }
+        visit_mut::visit_expr_mut(self, e);
+    }
+}
+
 // ------------------------------------------------------------------ markers
 
 struct LoopMarker {
     n: usize,
     with_binder: Vec<usize>,
+    desugared: Vec<usize>,
 }
 impl VisitMut for LoopMarker {
     fn visit_expr_mut(&mut self, e: &mut Expr) {
@@ -971,6 +1019,7 @@ impl VisitMut for LoopMarker {
         match e {
             Expr::ForLoop(f) => {
                 self.n += 1;
+                f.body.stmts.insert(0, parse_quote! { __fjx_loopstart!(#id); });
                 f.body.stmts.insert(0, parse_quote! { __fjx_loop!(#id); });
                 if self.with_binder.contains(&n) {
                     let e = &f.expr;
@@ -979,10 +1028,14 @@ impl VisitMut for LoopMarker {
             }
             Expr::While(f) => {
                 self.n += 1;
+                f.body.stmts.insert(0, parse_quote! { __fjx_loopstart!(#id); });
                 f.body.stmts.insert(0, parse_quote! { __fjx_loop!(#id); });
             }
             Expr::Loop(f) => {
                 self.n += 1;
+                if !self.desugared.contains(&n) {
+                    f.body.stmts.insert(0, parse_quote! { __fjx_loopstart!(#id); });
+                }
                 f.body.stmts.insert(0, parse_quote! { __fjx_loop!(#id); });
             }
             _ => {}
@@ -1174,6 +1227,7 @@ struct ExtractSpec {
     iter_params: Vec<String>,
     contract_file: Option<String>,
     until: Option<String>,
+    desugar_for: Vec<usize>,
     iter_args: Vec<(String, usize)>,
 }
 
@@ -1568,8 +1622,13 @@ impl Unit {
             block = parse_quote! { { unimplemented!() } };
             log.push("SPEC-ONLY: body not verified here (declaration with the contract proved in another unit)".into());
         }
+        // R-FOR
+        if !spec.desugar_for.is_empty() {
+            let mut fd = ForDesugar { n: 0, which: &spec.desugar_for, log: &mut log };
+            fd.visit_block_mut(&mut block);
+        }
         // markers
-        let mut lm = LoopMarker { n: 0, with_binder: spec.loops.keys().cloned().collect() };
+        let mut lm = LoopMarker { n: 0, with_binder: spec.loops.keys().cloned().collect(), desugared: spec.desugar_for.clone() };
         lm.visit_block_mut(&mut block);
         let n_loops = lm.n;
         for k in spec.loops.keys() {
@@ -1577,16 +1636,22 @@ impl Unit {
                 die(&format!("lost anchor: {}::{} has {} loops, contract names loop {}", spec.file, spec.name, n_loops, k));
             }
         }
-        let needles: Vec<(String, bool, usize)> =
-            spec.proofs.iter().enumerate().map(|(i, (n, a, _))| (nospace(n), *a, i)).collect();
+        let needles: Vec<(String, bool, usize)> = spec
+            .proofs
+            .iter()
+            .enumerate()
+            .filter(|(_, (n, _, _))| !n.starts_with("@loop-start"))
+            .map(|(i, (n, a, _))| (nospace(n), *a, i))
+            .collect();
         if !needles.is_empty() {
-            let mut pm = ProofMarker { needles: &needles, hits: vec![0; needles.len()] };
+            let mut pm = ProofMarker { needles: &needles, hits: vec![0; spec.proofs.len()] };
             pm.visit_block_mut(&mut block);
-            for (i, h) in pm.hits.iter().enumerate() {
-                if *h != 1 {
+            for (_, _, i) in needles.iter() {
+                let h = pm.hits[*i];
+                if h != 1 {
                     die(&format!(
                         "lost anchor: proof anchor `{}` in {}::{} matched {} statements",
-                        spec.proofs[i].0, spec.file, spec.name, h
+                        spec.proofs[*i].0, spec.file, spec.name, h
                     ));
                 }
             }
@@ -1666,6 +1731,11 @@ impl Unit {
                 text.insert_str(brace, &ins);
             }
         };
+        // ghost iteration counters of R-FOR loops (number of items taken so far)
+        for idx in &spec.desugar_for {
+            text = text.replace(&format!("__fjx_ghost_decl!({idx});"), &format!("let ghost mut __fjx_n{idx}: int = 0;"));
+            text = text.replace(&format!("__fjx_ghost_inc!({idx});"), &format!("proof {{ __fjx_n{idx} = __fjx_n{idx} + 1; }}"));
+        }
         // ghost binder for `for` loops under contract: `for x in E` -> `for x in it: E`
         while let Some(pos) = text.find("__fjx_iter!(") {
             let start = pos + "__fjx_iter!(".len();
@@ -1691,7 +1761,30 @@ impl Unit {
             let lines = spec.loops.get(&n).unwrap_or(&empty);
             splice_before_brace(&mut text, &marker, lines, "");
         }
-        for (i, (_, _, lines)) in spec.proofs.iter().enumerate() {
+        // loop-start anchors
+        for n in 0..n_loops {
+            let marker = format!("__fjx_loopstart!({n});");
+            let repl = spec
+                .proofs
+                .iter()
+                .filter(|(needle, _, _)| needle.trim() == format!("@loop-start {n}"))
+                .map(|(_, _, lines)| lines.join("\n"))
+                .collect::<Vec<_>>()
+                .join("\n");
+            text = text.replace(&marker, &repl);
+        }
+        for (needle, _, _) in spec.proofs.iter() {
+            if let Some(k) = needle.trim().strip_prefix("@loop-start ") {
+                let k: usize = k.parse().unwrap_or_else(|_| die("bad @loop-start"));
+                if k >= n_loops {
+                    die(&format!("lost anchor: @loop-start {k}: function has {n_loops} loops"));
+                }
+            }
+        }
+        for (i, (needle, _, lines)) in spec.proofs.iter().enumerate() {
+            if needle.starts_with("@loop-start") {
+                continue;
+            }
             let marker = format!("__fjx_proof!({i});");
             let pos = text.find(&marker).unwrap_or_else(|| die("internal: proof marker lost"));
             text.replace_range(pos..pos + marker.len(), &lines.join("\n"));
@@ -2172,6 +2265,8 @@ impl Unit {
                             } else if let Some(n) = o.strip_prefix("iter_arg=") {
                                 let (m, k) = n.split_once(':').unwrap_or_else(|| die("bad iter_arg"));
                                 spec.iter_args.push((m.to_string(), k.parse().unwrap_or_else(|_| die("bad iter_arg index"))))
+                            } else if let Some(n) = o.strip_prefix("desugar_for=") {
+                                spec.desugar_for = n.split(',').map(|x| x.parse().unwrap_or_else(|_| die("bad desugar_for"))).collect();
                             } else if let Some(n) = o.strip_prefix("until=") {
                                 spec.until = Some(n.replace('~', " "))
                             } else if let Some(n) = o.strip_prefix("ret=") {
